@@ -1,0 +1,20 @@
+//go:build verif
+
+package p2p
+
+import (
+	"crypto/ecdsa"
+	"net"
+
+	"github.com/zenon-network/go-zenon/p2p/discover"
+)
+
+// VerifDialRLPX performs the initiator side of the RLPx encryption handshake on fd and returns the
+// frame-level reader/writer. Used by the verification lab to speak to a Server as a remote peer.
+func VerifDialRLPX(fd net.Conn, prv *ecdsa.PrivateKey, remote discover.NodeID) (MsgReadWriter, error) {
+	t := newRLPX(fd).(*rlpx)
+	if _, err := t.doEncHandshake(prv, &discover.Node{ID: remote}); err != nil {
+		return nil, err
+	}
+	return t, nil
+}
